@@ -195,7 +195,8 @@ func (cc *chaosConn) Read(p []byte) (int, error) {
 			cc.mu.Lock()
 			if d {
 				cc.drop[corr] = true
-			} else if st := cc.c.takeStall(key); st > 0 {
+			}
+			if st := cc.c.takeStall(key); st > 0 { // with a drop armed too: the answer is held back, then lost
 				cc.delay[corr] = st
 			}
 			cc.rbuf = cc.rbuf[4+size:]
@@ -219,6 +220,12 @@ func (cc *chaosConn) Write(p []byte) (int, error) {
 			break
 		}
 		corr := int32(binary.BigEndian.Uint32(cc.wbuf[4:8]))
+		if d := cc.delay[corr]; d > 0 && cc.drop[corr] {
+			delete(cc.delay, corr)
+			cc.mu.Unlock()
+			time.Sleep(d)
+			cc.mu.Lock()
+		}
 		if cc.drop[corr] {
 			// the request was handled; its acknowledgement is lost and the connection dies
 			cc.dead = true
